@@ -26,7 +26,7 @@ def one(name):
             return name, 'PATCH-DOES-NOT-APPLY', ''
         res = []
         for c in meta.get('detected_by', []):
-            rc, o = sh('./check %s --tier quick' % c, cwd='/verif', env=dict(os.environ, VERIF_REPO=wt, VERIF_OUT=out))
+            rc, o = sh('./check %s --tier quick' % c, cwd='/verif', env=dict(os.environ, VERIF_REPO=wt, VERIF_OUT=out, VERIF_PROCS=os.environ.get('VERIF_PROCS', '4')))
             nv = sum(1 for l in o.splitlines() if l.startswith('VIOLATION'))
             res.append((c, rc, nv))
         ok = bool(res) and any(rc == 1 and nv > 0 for _, rc, nv in res)
@@ -39,7 +39,7 @@ def one(name):
 def main():
     args = [a for a in sys.argv[1:] if not a.startswith('-j')]
     j = [int(a[2:]) for a in sys.argv[1:] if a.startswith('-j')]
-    names = sorted(n for n in os.listdir('/verif/seeded') if not args or any(n.startswith(a) for a in args))
+    names = sorted(n for n in os.listdir('/verif/seeded') if os.path.isdir(os.path.join('/verif/seeded', n)) and (not args or any(n.startswith(a) for a in args)))
     bad = 0
     with ThreadPoolExecutor(max_workers=(j[0] if j else 4)) as ex:
         for name, verdict, res in ex.map(one, names):
